@@ -11,6 +11,8 @@ square root, for every size `n`, every budget `max_iter`, every start vector and
 import LinOp.C09.ProofsRun
 import LinOp.C09.ProofsPost
 import LinOp.C09.ProofsScale
+import LinOp.C09.ProofsMulti
+import LinOp.C09.ProofsCompose
 import LinOp.Generated.C09Consts
 
 set_option linter.unusedSectionVars false
@@ -267,6 +269,155 @@ theorem diagonalization_jitter_diagonal_partial {m : Nat} (T : Mat K m m) (j : K
     addJitterAll T j a a = addJitter T j a a := by
   simp [addJitterAll, addJitter]
 
+/-! ### end-to-end: `lanczosTridiag` on the closure of a symmetric matrix, matrix identities (no free `Q`, `T`) -/
+
+/-- From the column-wise invariants of a finished state to the matrix identities of the property, for the returned
+`Q` (`n × count`) and `T` (`count × count`) and the closure `x ↦ A x` of a symmetric `A`:
+`QᵀQ = 1`, `QᵀAQ = T`, `A Q − Q T = r e_kᵀ` (the residual `r = A q_k − β_{k−1} q_{k−1} − α_k q_k` in the LAST column,
+zero elsewhere), `Q T Qᵀ = (QQᵀ) A (QQᵀ)` with `QQᵀ` an orthogonal projector, and `Q T Qᵀ = A` when `count = n`. -/
+theorem matrix_identities_of_done {A : Matrix (Fin n) (Fin n) K} (hA : Aᵀ = A) (o : Out K n) (h1 : 1 ≤ o.count)
+    (hT : TStruct o.st) (hd : Done (amulOf A) (o.count - 1) o.st) :
+    (Matrix.of o.Q)ᵀ * Matrix.of o.Q = 1 ∧
+    (Matrix.of o.Q)ᵀ * A * Matrix.of o.Q = Matrix.of o.T ∧
+    A * Matrix.of o.Q - Matrix.of o.Q * Matrix.of o.T = residualMat A o ∧
+    Matrix.of o.Q * Matrix.of o.T * (Matrix.of o.Q)ᵀ
+      = (Matrix.of o.Q * (Matrix.of o.Q)ᵀ) * A * (Matrix.of o.Q * (Matrix.of o.Q)ᵀ) ∧
+    (Matrix.of o.Q * (Matrix.of o.Q)ᵀ) * (Matrix.of o.Q * (Matrix.of o.Q)ᵀ) = Matrix.of o.Q * (Matrix.of o.Q)ᵀ ∧
+    (o.count = n → Matrix.of o.Q * Matrix.of o.T * (Matrix.of o.Q)ᵀ = A) := by
+  have hQ := QtQ_of_orth o (fun i j hi hj => hd.orth i j (by omega) (by omega))
+  have hP := QtAQ_of_entries A o
+    (fun i j hi hj => done_projection (selfAdj_amulOf hA) hT hd i j (by omega) (by omega))
+  exact ⟨hQ, hP, AQ_sub_QT A o hT hd.recur, LinOp.C09.lanczos_compression _ A _ hP, (QQt_idem _ hQ).1,
+    fun hn => full_of_card _ A _ hn hQ hP⟩
+
+/-- END-TO-END statement about `lanczosTridiag` itself: for every symmetric `A`, every size, budget `≥ 1` and non-zero
+start vector the call succeeds with `1 ≤ count ≤ min max_iter n`, and — unless a returned off-diagonal entry is zero —
+the returned `Q`, `T` satisfy `QᵀQ = 1`, `QᵀAQ = T`, `A Q − Q T = r e_kᵀ`, `Q T Qᵀ =` the orthogonal compression of
+`A` onto the span of `Q`, and `Q T Qᵀ = A` when the budget reaches the dimension (`count = n`). -/
+theorem lanczos_tridiag_matrix_identities (hs : SqrtLaw ops) {A : Matrix (Fin n) (Fin n) K} (hA : Aᵀ = A)
+    (maxIter : Nat) (v : Vec K n) (hv : fn v ⬝ᵥ fn v ≠ 0) (hg : p.guardsSingle = true) (h1 : 1 ≤ min maxIter n) :
+    ∃ o, lanczosTridiag ops p (amulOf A) maxIter v = .ok o ∧ 1 ≤ o.count ∧ o.count ≤ min maxIter n ∧
+      (BetaOK (o.count - 1) o.st →
+        (Matrix.of o.Q)ᵀ * Matrix.of o.Q = 1 ∧
+        (Matrix.of o.Q)ᵀ * A * Matrix.of o.Q = Matrix.of o.T ∧
+        A * Matrix.of o.Q - Matrix.of o.Q * Matrix.of o.T = residualMat A o ∧
+        Matrix.of o.Q * Matrix.of o.T * (Matrix.of o.Q)ᵀ
+          = (Matrix.of o.Q * (Matrix.of o.Q)ᵀ) * A * (Matrix.of o.Q * (Matrix.of o.Q)ᵀ) ∧
+        (Matrix.of o.Q * (Matrix.of o.Q)ᵀ) * (Matrix.of o.Q * (Matrix.of o.Q)ᵀ)
+          = Matrix.of o.Q * (Matrix.of o.Q)ᵀ ∧
+        (o.count = n → Matrix.of o.Q * Matrix.of o.T * (Matrix.of o.Q)ᵀ = A)) := by
+  obtain ⟨o, ho, h1', h3, hT, hd⟩ := lanczos_ok (p := p) hs (selfAdj_amulOf hA) hg maxIter v hv h1
+  exact ⟨o, ho, h1', h3, fun hb => matrix_identities_of_done hA o h1' hT (hd hb)⟩
+
+/-- END-TO-END root: `lanczosTridiag`, the relative jitter `j = tridiagonal_jitter · min(diag T)` (`jitterOf`, i.e.
+`minDiag`), any eigendecomposition `(θ, V)` of the jittered `T` with non-negative Ritz values (the `eigh` parameter) and
+the assembly of `RootDecomposition.forward`: `R Rᵀ = (QQᵀ) A (QQᵀ) + j·QQᵀ`, and `R Rᵀ = A + j·1` when `count = n`. -/
+theorem lanczos_tridiag_root (hs : SqrtLaw ops) {A : Matrix (Fin n) (Fin n) K} (hA : Aᵀ = A)
+    (maxIter : Nat) (v : Vec K n) (hv : fn v ⬝ᵥ fn v ≠ 0) (hg : p.guardsSingle = true) (h1 : 1 ≤ min maxIter n)
+    (jit : K) :
+    ∃ o, lanczosTridiag ops p (amulOf A) maxIter v = .ok o ∧
+      (BetaOK (o.count - 1) o.st →
+        ∀ (V : Matrix (Fin o.count) (Fin o.count) K) (θ : Fin o.count → K),
+          V * Matrix.diagonal θ * Vᵀ = Matrix.of (jitteredT ltb jit o.T) → (∀ j, 0 ≤ θ j) →
+          lanczosRoot ops (Matrix.of o.Q) V θ * (lanczosRoot ops (Matrix.of o.Q) V θ)ᵀ
+            = (Matrix.of o.Q * (Matrix.of o.Q)ᵀ) * A * (Matrix.of o.Q * (Matrix.of o.Q)ᵀ)
+              + jitterOf ltb jit o.T • (Matrix.of o.Q * (Matrix.of o.Q)ᵀ) ∧
+          (o.count = n →
+            lanczosRoot ops (Matrix.of o.Q) V θ * (lanczosRoot ops (Matrix.of o.Q) V θ)ᵀ
+              = A + jitterOf ltb jit o.T • (1 : Matrix (Fin n) (Fin n) K))) := by
+  obtain ⟨o, ho, h1', h3, hT, hd⟩ := lanczos_ok (p := p) hs (selfAdj_amulOf hA) hg maxIter v hv h1
+  refine ⟨o, ho, fun hb V θ hE hθ => ?_⟩
+  obtain ⟨hQ, hP, _, _, _, _⟩ := matrix_identities_of_done hA o h1' hT (hd hb)
+  have hroot := root_of_compression ops hs.mul_self (Matrix.of o.Q) A (Matrix.of o.T) V θ (jitterOf ltb jit o.T) hP hE hθ
+  refine ⟨hroot, fun hn => ?_⟩
+  rw [hroot, QQt_of_card _ hn hQ, Matrix.one_mul, Matrix.mul_one]
+
+/-! ### the coupled multi-column loop (`lanczosMulti`: all columns of one call in ONE loop) -/
+
+/-- LIFT of the single-column theorems through the coupled loop.  `C` columns (batch members × init vectors), each with
+its own self-adjoint closure and non-zero start vector, run with ONE iteration counter; extra re-orthogonalisation
+passes are run on all columns as soon as ANY column asks, and the loop is left only when ALL columns are at or below
+the threshold — so a column can be carried on after its own breakdown.  The call succeeds, returns one
+`1 ≤ count ≤ min max_iter n`, every column's `T` is symmetric tridiagonal, and for EVERY column `c` and EVERY prefix
+length `m ≤ count` such that the column's own off-diagonal entries `T_c[j, j+1]`, `j < m − 1`, are non-zero (the prefix
+before that column's own breakdown): `q_0 … q_{m−1}` are orthonormal, satisfy the three-term recurrence, and
+`q_i · A_c q_j = T_c[i, j]` on the prefix — whatever the other columns did. -/
+theorem lanczos_multi_column_prefix {C : Nat} {amuls : Fin C → Vec K n → Vec K n} (hs : SqrtLaw ops)
+    (hA : ∀ c, SelfAdj (amuls c)) (maxIter : Nat) (vs : Vector (Vec K n) C)
+    (hv : ∀ c : Fin C, fn vs[c] ⬝ᵥ fn vs[c] ≠ 0) (h1 : 1 ≤ min maxIter n) :
+    ∃ o, lanczosMulti ops p amuls maxIter vs = .ok o ∧ 1 ≤ o.count ∧ o.count ≤ min maxIter n ∧
+      ∀ c : Fin C, TStruct o.cols[c] ∧
+        ∀ m, 1 ≤ m → m ≤ o.count → BetaOK (m - 1) o.cols[c] →
+          (∀ i j, i < m → j < m → Qf o.cols[c] i ⬝ᵥ Qf o.cols[c] j = if i = j then 1 else 0) ∧
+          (∀ j, j + 1 < m → AQf (amuls c) o.cols[c] j =
+            (if j = 0 then 0 else Tf o.cols[c] j (j - 1) • Qf o.cols[c] (j - 1)) + Tf o.cols[c] j j • Qf o.cols[c] j
+              + Tf o.cols[c] j (j + 1) • Qf o.cols[c] (j + 1)) ∧
+          (∀ i j, i < m → j < m → Qf o.cols[c] i ⬝ᵥ AQf (amuls c) o.cols[c] j = Tf o.cols[c] i j) := by
+  obtain ⟨o, ho, h1', h3, hcols⟩ := lanczosMulti_ok (p := p) hs hA maxIter vs hv h1
+  refine ⟨o, ho, h1', h3, fun c => ⟨(hcols c).tstruct, fun m hm1 hm2 hb => ?_⟩⟩
+  have hd := (hcols c).prefix_done m hm1 hm2 hb
+  exact ⟨fun i j hi hj => hd.orth i j (by omega) (by omega), fun j hj => hd.recur j (by omega),
+    fun i j hi hj => done_projection (hA c) (hcols c).tstruct hd i j (by omega) (by omega)⟩
+
+/-- Coupled run on matrices: column `c` runs on the symmetric matrix `A c` (its batch member).  Every column that has
+not broken down before the shared `count` satisfies the matrix identities of the property; in particular a column that
+reaches `count = n` reconstructs its matrix, `Q_c T_c Q_cᵀ = A_c`. -/
+theorem lanczos_multi_matrix_identities {C : Nat} (A : Fin C → Matrix (Fin n) (Fin n) K) (hs : SqrtLaw ops)
+    (hA : ∀ c, (A c)ᵀ = A c) (maxIter : Nat) (vs : Vector (Vec K n) C)
+    (hv : ∀ c : Fin C, fn vs[c] ⬝ᵥ fn vs[c] ≠ 0) (h1 : 1 ≤ min maxIter n) :
+    ∃ o, lanczosMulti ops p (fun c => amulOf (A c)) maxIter vs = .ok o ∧
+      ∀ c : Fin C, BetaOK (o.count - 1) o.cols[c] →
+        (Matrix.of (o.col c).Q)ᵀ * Matrix.of (o.col c).Q = 1 ∧
+        (Matrix.of (o.col c).Q)ᵀ * A c * Matrix.of (o.col c).Q = Matrix.of (o.col c).T ∧
+        A c * Matrix.of (o.col c).Q - Matrix.of (o.col c).Q * Matrix.of (o.col c).T = residualMat (A c) (o.col c) ∧
+        (o.count = n → Matrix.of (o.col c).Q * Matrix.of (o.col c).T * (Matrix.of (o.col c).Q)ᵀ = A c) := by
+  obtain ⟨o, ho, h1', h3, hcols⟩ :=
+    lanczosMulti_ok (p := p) (amuls := fun c => amulOf (A c)) hs (fun c => selfAdj_amulOf (hA c)) maxIter vs hv h1
+  refine ⟨o, ho, fun c hb => ?_⟩
+  have hd := (hcols c).prefix_done o.count h1' le_rfl hb
+  obtain ⟨e1, e2, e3, _, _, e6⟩ :=
+    matrix_identities_of_done (hA c) (o.col c) h1' (hcols c).tstruct hd
+  exact ⟨e1, e2, e3, e6⟩
+
+/-- What the code does with a column that BREAKS DOWN in iteration `k` (`β_k = 0` exactly) while the run goes on
+(`k + 1 < num_iter`): its residual is the zero vector, the vector handed to the extra passes is `r / 0` — entry by entry
+the quotient `0 / 0` (NaN in IEEE arithmetic, which the `Float` run of this model and the implementation both produce; `0` in a
+field) — and the two off-diagonal entries written are `0`; its first `k + 1` vectors stay as they are (`lanczos_multi_column_prefix`). -/
+theorem multi_column_breakdown {C : Nat} {amuls : Fin C → Vec K n → Vec K n} (hs : SqrtLaw ops)
+    (numIter k : Nat) (ss : Vector (St K n) C) (c : Fin C) (h : k + 1 < numIter)
+    (hb : bodyN ops (amuls c) k ss[c] = 0) :
+    fn (bodyR2 (amuls c) k ss[c]) = 0 ∧
+    (colPre ops (amuls c) k ss[c]).2.2 = vdiv (bodyR2 (amuls c) k ss[c]) 0 ∧
+    Tf (bodyM ops p amuls numIter k ss).1[c] k (k + 1) = 0 ∧ Tf (bodyM ops p amuls numIter k ss).1[c] (k + 1) k = 0 :=
+  (bodyM_step (p := p) (amuls := amuls) (numIter := numIter) (k := k) (ss := ss) hs c).breakdown hs h hb
+
+/-- The coupled break test: after iteration `k` the loop goes on iff SOME column has `|β_k| > 1e-6` and the shared
+extra-pass loop ended with `could_reorthogonalize = True`; a column at or below the threshold does not stop the others.
+Without a re-orthogonalisation block (`k + 1 = num_iter`) there is no break. -/
+theorem multi_break_iff {C : Nat} {amuls : Fin C → Vec K n → Vec K n} (numIter k : Nat) (ss : Vector (St K n) C) :
+    (k + 1 < numIter →
+      ((bodyM ops p amuls numIter k ss).2 = false ↔
+        (∃ c : Fin C, ops.gt (ops.abs (bodyN ops (amuls c) k ss[c])) p.breakTol = true) ∧
+        (extraPassesM ops p.tol (k + 1) (Vector.ofFn fun c => ss[c].q) p.extra
+          (Vector.ofFn fun c => bodyW ops (amuls c) k ss[c])).2.1 = true)) ∧
+    (¬ k + 1 < numIter → (bodyM ops p amuls numIter k ss).2 = false) :=
+  ⟨fun h => bodyM_break h, fun h => bodyM_nobreak h⟩
+
+/-- Extra passes triggered by ANOTHER column are harmless: whatever number of passes the shared test decides, a
+column whose vector is already a unit vector orthogonal to its `q_0 … q_k` gets it back unchanged. -/
+theorem multi_extra_passes_fixed {C : Nat} (hs : SqrtLaw ops) (tol : K) (k : Nat) (qs : Vector (Fam (Vec K n)) C)
+    (c : Fin C) (fuel : Nat) (rs : Vector (Vec K n) C)
+    (h0 : ∀ j, j ≤ k → fn (qs[c].get j) ⬝ᵥ fn rs[c] = 0) (h1 : fn rs[c] ⬝ᵥ fn rs[c] = 1) :
+    (extraPassesM ops tol (k + 1) qs fuel rs).1[c] = rs[c] :=
+  extraPassesM_fixed hs tol k qs c fuel rs h0 h1
+
+/-- `mins = min(diag t_mat)` of the jitter statements (`minDiag`): a lower bound of the diagonal, attained on it
+(so the jitter is `tridiagonal_jitter ×` an actual diagonal entry, the smallest one); the default only for `0 × 0`. -/
+theorem min_diag_spec {m : Nat} (T : Mat K m m) (d : K) :
+    (∀ i : Fin m, minDiag ltb T d ≤ T i i) ∧ (0 < m → ∃ i : Fin m, minDiag ltb T d = T i i) ∧
+      (m = 0 → minDiag ltb T d = d) :=
+  minDiag_spec T d
+
 /-! ### constants and tests of the source, regenerated on every run -/
 
 /-- The jitter statements of `RootDecomposition.forward` and `Diagonalization.forward` are the documented relative
@@ -336,9 +487,29 @@ theorem generated_loop_skeleton :
 
 /-! ### the hypotheses are satisfiable -/
 
-/-- The rationals with an (arbitrary but lawful on the squares that occur) square root: on `ℚ` the law
-`sqrt x * sqrt x = x` cannot hold for all `x ≥ 0`, so the satisfiability example uses the trivial
-one-column case of the fixed model, where only `sqrt 1` is needed. -/
-example : ∃ A : Matrix (Fin 2) (Fin 2) ℚ, Aᵀ = A ∧ A ≠ 0 := ⟨!![2, 1; 1, 3], by decide, by decide⟩
+/-- A real instance: over `ℝ` with `Real.sqrt`, `A = [[2,1],[1,3]]` (symmetric), start vector `e_0`, budget 2.  All
+hypotheses of the theorems above hold together — lawful square root, self-adjoint closure, non-zero start vector, guarded
+first step, budget — and the run of the model returns `count = 2` with `BetaOK` (no breakdown: `β_0 = 1`). -/
+theorem hypotheses_satisfiable_real :
+    SqrtLaw realOps ∧ SelfAdj (amulOf exA) ∧ fn exV ⬝ᵥ fn exV ≠ 0 ∧ exP.guardsSingle = true ∧ 1 ≤ min 2 2 ∧
+    ∃ o, lanczosTridiag realOps exP (amulOf exA) 2 exV = .ok o ∧ o.count = 2 ∧ BetaOK (o.count - 1) o.st :=
+  real_instance
+
+/-- …hence the conclusion of the end-to-end theorem is not vacuous: on that instance `Q T Qᵀ = A`. -/
+example : ∃ o, lanczosTridiag realOps exP (amulOf exA) 2 exV = .ok o ∧
+    Matrix.of o.Q * Matrix.of o.T * (Matrix.of o.Q)ᵀ = exA := by
+  obtain ⟨hs, _, hv, hg, h1, o, ho, hc, hb⟩ := real_instance
+  obtain ⟨o', ho', _, _, hid⟩ := lanczos_tridiag_matrix_identities (p := exP) hs exA_symm 2 exV hv hg h1
+  have : o' = o := by
+    rw [ho] at ho'
+    exact (Except.ok.inj ho').symm
+  subst this
+  exact ⟨o', ho, (hid hb).2.2.2.2.2 hc⟩
+
+/-- the multi-column hypotheses are satisfiable as well (two columns on that matrix, over `ℝ`) -/
+example : ∃ (vs : Vector (Vec ℝ 2) 2), (∀ c : Fin 2, SelfAdj ((fun _ : Fin 2 => amulOf exA) c)) ∧
+    (∀ c : Fin 2, fn vs[c] ⬝ᵥ fn vs[c] ≠ 0) :=
+  ⟨#v[exV, exV], fun _ => selfAdj_amulOf exA_symm, fun c => by
+    fin_cases c <;> exact exV_ne⟩
 
 end LinOp.C09.Props
